@@ -62,6 +62,11 @@ func templates() []template {
 		{"nested", []*node{f("users", -1, f("id", -1), f("items", 0, f("id", -1), f("owner", 1, f("name", 2), f("id", -1))))}, nil, 3},
 		{"nested-fragments", []*node{f("users", -1, f("age", -1), sp("A", 0))},
 			[]fragDef{{"A", "User", []*node{f("id", -1), sp("B", 1)}}, {"B", "User", []*node{f("name", -1), f("friend", 2, f("id", -1))}}}, 3},
+		// a spread with a directive inside another fragment's definition, under a union parent (both orders of the two names)
+		{"union-nested-spread", []*node{f("things", -1, f("__typename", -1), sp("A", 0), on("Item", -1, f("id", -1)))},
+			[]fragDef{{"A", "User", []*node{f("id", -1), sp("B", 1)}}, {"B", "User", []*node{f("name", 2), f("age", -1)}}}, 3},
+		{"union-nested-spread-rev", []*node{f("things", -1, f("__typename", -1), sp("Z", 0), on("Item", -1, f("id", -1)))},
+			[]fragDef{{"Z", "User", []*node{f("id", -1), sp("B", 1)}}, {"B", "User", []*node{f("name", 2), f("age", -1)}}}, 3},
 		{"args-and-alias", []*node{f("u: user(id: 2)", 0, f("n: name", 1), f("id", -1)), f("c: count", 2), f("count", -1)}, nil, 3},
 		{"fav-union-nested", []*node{f("users", -1, f("id", -1), f("fav", 0, f("__typename", -1), on("Item", 1, f("name", -1)), on("User", 2, f("name", -1))))}, nil, 3},
 	}
@@ -318,6 +323,8 @@ func fedTemplates() []template {
 		{"fed-union-name", []*node{f("everyone", -1, f("__typename", -1), on("Everyone", 0, on("User", 1, f("email", -1)), on("Admin", -1, f("hiding", -1))), on("User", 2, f("id", -1)))}, nil, 3},
 		{"fed-union-name-spread", []*node{f("everyone", -1, f("__typename", -1), sp("E", 0), sp("E", 1), on("Admin", 2, f("id", -1)))},
 			[]fragDef{{"E", "Everyone", []*node{on("User", -1, f("email", -1), f("age", -1)), on("Admin", -1, f("hiding", -1))}}}, 3},
+		{"fed-nested-spread", []*node{f("users", -1, f("id", -1), sp("A", 0))},
+			[]fragDef{{"A", "User", []*node{f("age", -1), sp("B", 1)}}, {"B", "User", []*node{f("email", 2), f("id", -1)}}}, 3},
 		{"fed-hop", []*node{f("users", -1, f("id", -1), f("device", 0, f("id", -1), f("temp", 1), f("owner", 2, f("email", -1))))}, nil, 3},
 	}
 }
@@ -368,7 +375,7 @@ func runFed(rp *explore.Report, tier string) {
 
 func init() {
 	reg.Register(&reg.Harness{Property: "C19", Name: "c19/gateway", Level: "exploration", Run: runFed,
-		Rule: "the same enumeration through the federation gateway: 7 templates (fields on different services, same-alias selections, a fragment spread twice, union member fragments, fragments on the union's own name inline and spread twice, a two-hop plan) x 13^3 directive assignments (both written orders of a skip+include pair) x the six condition transports (quick: literal, required variable and the mixed defaults), over a two-service split of the fedfix domain; oracle: gateway(annotated) == gateway(pruned)"})
+		Rule: "the same enumeration through the federation gateway: 8 templates (fields on different services, same-alias selections, a fragment spread twice, union member fragments, fragments on the union's own name inline and spread twice, a two-hop plan) x 13^3 directive assignments (both written orders of a skip+include pair) x the six condition transports (quick: literal, required variable and the mixed defaults), over a two-service split of the fedfix domain; oracle: gateway(annotated) == gateway(pruned)"})
 	reg.Register(&reg.Harness{Property: "C19", Name: "c19/directives", Level: "exploration", Run: run,
-		Rule: "14 query templates (fields, same-alias objects/leaves, inline fragments, one named fragment spread twice in different and in the same selection set, union member fragments incl. the same member twice, spreads under unions, nested fragments, aliases+arguments) x every assignment of {none, skip T/F, include T/F, both in all four combinations and both written orders} to 3 directive sites x condition transport {literal, required variable, variable with a default that the supplied value overrides, default used (variable absent), default used (variable null), a mix of the last three over the sites}; oracle: Execute(annotated) == Execute(textually pruned query); non-trivial = at least one directive present"})
+		Rule: "16 query templates (fields, same-alias objects/leaves, inline fragments, one named fragment spread twice in different and in the same selection set, union member fragments incl. the same member twice, spreads under unions, nested fragments, aliases+arguments) x every assignment of {none, skip T/F, include T/F, both in all four combinations and both written orders} to 3 directive sites x condition transport {literal, required variable, variable with a default that the supplied value overrides, default used (variable absent), default used (variable null), a mix of the last three over the sites}; oracle: Execute(annotated) == Execute(textually pruned query); non-trivial = at least one directive present"})
 }
